@@ -563,6 +563,8 @@ uint64_t bufr_getbits ( BUFR_Message *bufr, int nbbits, int *errcode)
       return 0;
       }
 
+   if (nbbits <= 0) return 0;
+
    ptrData = bufr->s4.current;
    bitno = bufr->s4.bitno;
 
@@ -669,6 +671,8 @@ void bufr_skip_bits ( BUFR_Message *bufr, int nbbits, int *errcode)
 
    nbits_read = 0;
    *errcode = 0;
+
+   if (nbbits <= 0) return;
 
    ptrData = bufr->s4.current;
    bitno = bufr->s4.bitno;
